@@ -163,11 +163,15 @@ def run(tier):
                 f"preference now {e['pref']!r}, navigation {e['nav']}; expression {mml.rename_ids(s['expr'])[:200]}")
         verdict.reject(f"{reason}|{s['code']}|{s['style']}|{op['op']}|{S.fp(s['expr'])}", text, {"script": s["ops"][:oi + 3]},
                        text=json.dumps({"reason": reason, "code": s["code"], "style": s["style"], "op": op["op"], "expr": s["expr"], "msg": str(rr["v"])[:200]}, ensure_ascii=False))
+    # cross-subsystem walks judged against the umbrella specification (Session.tla); this property's clauses only
+    import sessionwalk
+    sw = sessionwalk.stage(PID, wd, tier, verdict)
     rc = verdict.finish(wd)
     kinds = {}
     for e in events:
         kinds[e["k"]] = kinds.get(e["k"], 0) + 1
     C.write_evidence(PID, tier, "model_checking", {
+        **sw,
         "states": m1["distinct"], "transitions": m1["states"],
         "traces_validated_against_impl": len(scripts),
         "samples": [{"code": scripts[0]["code"], "style": scripts[0]["style"], "queries": [o["op"] + ":" + str(o.get("id", o.get("pos", ""))) for o in scripts[0]["ops"][7:40:3]]}],
